@@ -1161,7 +1161,7 @@ func genContainer(r *Rand, g GenCfg) Plan {
 			ts := uniformDlgSpec(i)
 			ts.Dlg.Label = fmt.Sprintf("u%03d", i)
 			if i%5 == 4 {
-				ts = TokSpec{Kind: "inv", Inv: &InvSpec{Label: fmt.Sprintf("v%03d", i), Iss: i, Sub: i + 1, Aud: -1, Cmd: "/a", NonceLen: 12}}
+				ts = TokSpec{Kind: "inv", Inv: &InvSpec{Label: fmt.Sprintf("v%03d", i), Iss: i % 8, Sub: (i + 1) % 8, Aud: -1, Cmd: "/a", NonceLen: 12}}
 			}
 			p.Tokens = append(p.Tokens, ts)
 		}
